@@ -9,7 +9,13 @@ except ImportError:
 m=json.load(open('/verif/MANIFEST.json'))
 jsonschema.validate(m, json.load(open('/root/.vp/MANIFEST.schema.json')))
 print('manifest ok: %d checks'%len(m['checks']))
+bad = False
 for f in sorted(glob.glob('/verif/evidence/*.json')):
     e=json.load(open(f))
     jsonschema.validate(e, json.load(open('/root/.vp/EVIDENCE.schema.json')))
+    lvl = e.get('level')
+    if lvl == 'proof' and e['coverage'].get('obligations') != e['coverage'].get('discharged'):
+        print(f, 'INVALID for level proof: discharged != obligations', e['coverage'].get('obligations'), e['coverage'].get('discharged')); bad = True
     print(f,'ok',e['coverage'].get('obligations'),e['coverage'].get('discharged'))
+
+sys.exit(1 if bad else 0)
